@@ -107,6 +107,11 @@ def rule_consume(ctx: Ctx) -> None:
     cap = [s for s in st if isinstance(s.node, ast.Assign) and A.dotted(s.target) == "self._tokens" and A.dotted(s.node.value) == "self._tokens_per_period"]
     if min_form and not cap:
         cap = refill
+    if lapse and refill and dec and cap and not stamp:
+        ctx.bad("C20.2", "on every path to a return the reference time is moved to now", fn, lapse[0].stmt,
+                "consume() never stores the clock reading as the new reference time: the same elapsed time is credited again on every call, so "
+                "the bucket refills far faster than the configured rate")
+        return
     ctx.require(stamp and lapse and refill and dec and cap, "C20.2: consume() lost one of: lapse, re-stamp, refill, cap, decrement (unrecognised idiom)")
     rets = [n for n in g.nodes if n.kind == "stmt" and isinstance(n.ast, ast.Return)]
     ctx.floor("C20.2", "return statements in consume", len(rets), 2)
